@@ -20,7 +20,7 @@ RULE = ("Case = one tagged_data / feature_data call.  Reference arrays of rank 1
         "before the first by <1 or >=1 step, on the first, on the last, beyond the last}; extents by class {missing, zero, "
         "ending on a sample, between samples, shorter than a step, beyond the stored data}; positions shorter than the rank; "
         "Tag and MultiTag (1-D and 2-D position arrays); both stop rules; tag unit / dimension unit over 21x21 SI prefixes of "
-        "s, V, Hz, m (plus unit-less, unit on a set dimension, unit-less dimension, different base unit, compound tag unit); features tagged / "
+        "s, V, Hz, m, S with powers 1, 2, 3, -1 (plus unit-less, unit on a set dimension, unit-less dimension, different base unit, compound tag unit); features tagged / "
         "indexed / untagged.  Distinct by (descriptor kinds, position classes, extent classes, stop rule, prefix pair class, "
         "Tag|MultiTag, call, expected outcome class); trivial = none.")
 ASSUMPTIONS = ["region boundaries inside the library's documented float tolerance band of a sample are not generated (A3): every boundary is "
@@ -35,7 +35,8 @@ ASSUMPTIONS = ["region boundaries inside the library's documented float toleranc
 NSHARDS = 16
 PREFIXES = {"y": -24, "z": -21, "a": -18, "f": -15, "p": -12, "n": -9, "u": -6, "m": -3, "c": -2, "d": -1, "": 0,
             "da": 1, "h": 2, "k": 3, "M": 6, "G": 9, "T": 12, "P": 15, "E": 18, "Z": 21, "Y": 24}
-BASES = ["s", "V", "Hz", "m"]
+BASES = ["s", "V", "Hz", "m", "S"]          # s and S: second and siemens differ by case only
+POWERS = ["", "", "", "", "", "^2", "^-1", "^3"]
 IVALS = ["1", "0.5", "0.1", "2", "0.25", "0.001", "3", "0.3"]
 OFFS = [None, "0", "1", "-2", "0.5", "100", "1000", "-1000", "3.1"]
 
@@ -126,11 +127,24 @@ class Dim:
 
 
 def mk_unit(rng, scalable=True):
-    return (rng.choice(list(PREFIXES)), rng.choice(BASES))
+    return (rng.choice(list(PREFIXES)), rng.choice(BASES), rng.choice(POWERS))
+
+
+def power_of(u):
+    return int(u[2][1:]) if u[2] else 1
+
+
+def parse_unit(text):
+    """(prefix, base, power) of a unit string built by this generator, or None"""
+    import re
+    m = re.fullmatch(r"(.+?)(\^-?\d+)?", text)
+    head, power = m.group(1), m.group(2) or ""
+    c = [(p, head[len(p):], power) for p in sorted(PREFIXES, key=len, reverse=True) if head.startswith(p) and head[len(p):] in BASES]
+    return c[0] if c else None
 
 
 def unit_str(u):
-    return None if u is None else u[0] + u[1]
+    return None if u is None else u[0] + u[1] + u[2]
 
 
 def make_dim(nix, rng, da, n):
@@ -260,7 +274,14 @@ class Runner:
                 cls.add("unit_for_unitless_dimension")
                 scales.append(F(1))
                 continue
-            dp, base = d.unit
+            dp, base, pw = d.unit
+            if mode == "bad" and rng.random() < 0.2:
+                # same base unit, another power: not convertible
+                units.append(rng.choice(list(PREFIXES)) + base + rng.choice([x for x in ["", "^2", "^-1", "^3"] if x != pw]))
+                bad = True
+                cls.add("different_power")
+                scales.append(F(1))
+                continue
             if mode == "bad" and rng.random() < 0.3:
                 # a compound unit whose first factor would be convertible: the position cannot be converted into the dimension's unit
                 units.append(rng.choice(list(PREFIXES)) + base + rng.choice(["/", "*"]) + rng.choice(["s", "ms", "kHz", "m^2"]))
@@ -276,8 +297,10 @@ class Runner:
                 scales.append(F(1))
                 continue
             tp = dp if mode == "same" else rng.choice(list(PREFIXES))
-            units.append(tp + base)
-            scales.append(F(10) ** (PREFIXES[tp] - PREFIXES[dp]))
+            units.append(tp + base + pw)
+            scales.append(F(10) ** ((PREFIXES[tp] - PREFIXES[dp]) * power_of(d.unit)))
+            if pw:
+                cls.add("with_power")
             cls.add("same" if tp == dp else ("one_prefixed" if (tp == "" or dp == "") else "both_prefixed"))
         return units, (None if bad else scales), "+".join(sorted(cls))
 
@@ -483,12 +506,11 @@ class Runner:
                             elif tu == "none" or d.unit is None:
                                 fbad = True
                             else:
-                                tp = [p for p in sorted(PREFIXES, key=len, reverse=True) if tu.startswith(p) and tu[len(p):] in BASES]
-                                tp = [p for p in tp if tu[len(p):] == d.unit[1]]
-                                if not tp:
+                                pu = parse_unit(tu)
+                                if pu is None or pu[1] != d.unit[1] or pu[2] != d.unit[2] or "/" in tu or "*" in tu:
                                     fbad = True
                                 else:
-                                    sc = F(10) ** (PREFIXES[tp[0]] - PREFIXES[d.unit[0]])
+                                    sc = F(10) ** ((PREFIXES[pu[0]] - PREFIXES[d.unit[0]]) * power_of(d.unit))
                         a = fr(pos[k]) * sc
                         b = a if (ext is None) else a + fr(ext[k]) * sc
                         lsf = 1.0
